@@ -178,6 +178,8 @@ pub async fn build_memtable_flow(
 
     let source_ctx = Arc::clone(&ctx);
     tasks.push(tokio::spawn(async move {
+        #[cfg(feature = "verif-hooks")]
+        crate::verif_hooks::point("rd.memtable_flow_start", 0);
         if let Err(err) = source.run(source_tx, source_ctx).await {
             // ChannelClosed is expected when LIMIT is reached early - don't log as error
             match &err {
@@ -396,6 +398,8 @@ pub async fn build_segment_stream(
     let ctx_for_task = Arc::clone(&ctx);
     let caches_for_task = Arc::clone(&caches);
     tasks.push(tokio::spawn(async move {
+        #[cfg(feature = "verif-hooks")]
+        crate::verif_hooks::point("rd.segment_flow_start", 0);
         let steps: Vec<ExecutionStep<'_>> = plan_for_task
             .filter_groups
             .iter()
